@@ -175,7 +175,7 @@ def main():
             "guard": "verif",
             "enable": "go test -tags verif -overlay <generated sync-shim overlay> (bin/check does this from /repo's working tree)",
             "baseline_off_cmd": "bin/baseline_off",
-            "source_commits": ["17f08f8", "e94c44a"],
+            "source_commits": ["17f08f8", "e94c44a", "a4d6eb7"],
             "add_only": True,
         },
         "engines": [
